@@ -241,3 +241,70 @@ func (g *G) genSWR(id string) *History {
 	}
 	return h
 }
+
+// C05: byte-faithfulness — bodies with arbitrary bytes, all framings, protocol versions, odd and
+// multi-valued header fields, on every backend; each stored response is fetched again (hit).
+var c05Bodies = []string{
+	"", "x", "line1\r\nline2\r\n", "\x00\x01\x02\xff\xfe", "HTTP/1.1 200 OK\r\nContent-Length: 3\r\n\r\nabc",
+	"0\r\n\r\n", "5\r\nhello\r\n0\r\n\r\n", "\r\n\r\n", "tab\there", "ünïcödé ☃", "--boundary\r\nContent-Type: text/plain\r\n\r\npart\r\n--boundary--",
+}
+
+func (g *G) randBody() string {
+	if g.chance(0.6) {
+		return pick(g, c05Bodies...)
+	}
+	n := pick(g, 1, 7, 100, 1023, 1024, 4096, 5000)
+	if g.tier == "thorough" && g.chance(0.1) {
+		n = pick(g, 65536, 1<<20)
+	}
+	b := make([]byte, n)
+	for i := range b {
+		b[i] = byte(g.r.Intn(256))
+	}
+	return string(b)
+}
+
+func (g *G) genFaithful(id string) *History {
+	h := &History{ID: id, Prop: g.prop, Class: "faithful", Backend: pick(g, "mem", "fs", "fsenc"), Logger: "discard"}
+	url := pick(g, "http://a.test/f", "http://a.test/f?long="+strings.Repeat("k", pick(g, 10, 200, 400)))
+	hd := Hdr{{"Cache-Control", "max-age=3600"}}
+	if g.chance(0.8) {
+		hd = append(hd, [2]string{"Date", dateAt(0, 0)})
+	}
+	for _, p := range [][2]string{{"Set-Cookie", "a=1"}, {"Set-Cookie", "b=2; Path=/"}, {"x-lower-case", "v"}, {"X-Empty", ""},
+		{"X-Spaces", "  padded  "}, {"X-Long", strings.Repeat("v", 3000)}, {"X-Latin", "caf\xe9"}, {"Content-Type", "text/plain; charset=utf-8"},
+		{"Keep-Alive", "timeout=5"}, {"Upgrade", "h2c"}, {"Proxy-Authenticate", "Basic"}, {"Te", "trailers"}, {"TE", "gzip"},
+		{"Connection", "X-Hop, keep-alive"}, {"X-Hop", "hop"}, {"Proxy-Connection", "keep-alive"}, {"Etag", `"f1"`},
+		{"Age", "7"}, {"X-From-Cache", "1"}, {"X-Httpcache-Status", "HIT"}, {"Warning", `110 - "stale"`}, {"Vary", "X-A"}} {
+		if g.chance(0.3) {
+			hd = append(hd, p)
+		}
+	}
+	rp := Reply{Status: pick(g, 200, 200, 200, 203, 404, 410, 301), Hdr: hd, Body: g.randBody(), BodyFail: -1}
+	switch g.r.Intn(6) {
+	case 0:
+		rp.Chunked = true
+	case 1:
+		rp.NoCL = true
+	case 2:
+		rp.NoCL = true
+		rp.Proto = "HTTP/1.0"
+	case 3:
+		rp.Proto = "HTTP/1.0"
+	}
+	var rh Hdr
+	if g.chance(0.3) {
+		rh = Hdr{{"X-A", "1"}}
+	}
+	h.Ops = append(h.Ops, Op{Op: "req", AtNs: 0, Method: "GET", URL: url, Hdr: rh, Replies: []Reply{rp}})
+	at := int64(0)
+	for i := 0; i < 1+g.r.Intn(2); i++ {
+		at += pick(g, int64(1), 10, 100) * sec
+		if h.Backend != "mem" && g.chance(0.3) {
+			h.Ops = append(h.Ops, Op{Op: "reopen", AtNs: at})
+		}
+		h.Ops = append(h.Ops, Op{Op: "req", AtNs: at, Method: "GET", URL: url, Hdr: rh,
+			Replies: []Reply{{Status: 200, Hdr: Hdr{{"Date", dateAt(at, 0)}}, Body: "second", BodyFail: -1}}})
+	}
+	return h
+}
